@@ -138,6 +138,9 @@ type Stall struct {
 	// AfterW > 0: the stall starts right after the thread's AfterW-th write (successful CAS,
 	// store, add, unlock) instead of at step At: preempted in the middle of a multi-write update
 	AfterW int `json:"after_w,omitempty"`
+	// AfterS > 0: the stall starts right after the thread's own AfterS-th step of any kind
+	// (descheduled between two loads of one read-only operation)
+	AfterS int `json:"after_s,omitempty"`
 }
 
 type Config struct {
@@ -753,7 +756,15 @@ func (s *Sim) stalled(t, step int) bool {
 	for i := range s.cfg.Stalls {
 		st := &s.cfg.Stalls[i]
 		at := st.At
-		if st.AfterW > 0 && st.T == t {
+		if st.AfterS > 0 && st.T == t {
+			if s.th[t].steps < st.AfterS {
+				continue
+			}
+			if s.stallFrom[i] == 0 {
+				s.stallFrom[i] = step + 1
+			}
+			at = s.stallFrom[i] - 1
+		} else if st.AfterW > 0 && st.T == t {
 			if s.th[t].writes < st.AfterW {
 				continue
 			}
